@@ -140,6 +140,7 @@ def cases(tier):
         stores = list(Q.subsets(names[:4])) + [tuple(names)] + [tuple(names[:4]) + S for S in Q.subsets(names[4:]) if S]
     out = [("sem", backend, S, tier) for backend in ("sql", "kv") for S in stores]
     out += [("wf", backend, S, tier) for backend in ("sql", "kv") for S in Q.subsets(Q.members(tier))]
+    out += SCHEDMODE.cases(tier)
     nf = len(_lists(tier))
     blk = 400
     for lo in range(0, nf, blk):
@@ -159,6 +160,8 @@ def _lists(tier):
 
 
 def describe(case):
+    if case[0] == "sched":
+        return SCHEDMODE.describe(case)
     return {"mode": case[0], "backend": case[1], "arg": list(case[2]), "tier": case[3]}
 
 
@@ -483,7 +486,92 @@ def run_text(case):
             "sample": {"mode": "text", "which": which, "filter_lists": n, "compared_with_twin": checked}}
 
 
+# ---------------------------------------------------------------------------------------------------
+# Several connections at once: what one connection asks (or submits) must not leak into the answer another one gets.
+def _sched_store():
+    u = Q.U1()
+    return [u[n] for n in ("a_k1_t10_ea", "a_k1_t20_eab", "b_k1_t20_eb", "a_k2_t30_dup", "b_k256_t30_dlg")]
+
+
+def _sched_specs():
+    u = Q.U1()
+    B = u["b_k1_t20_eb"]["pubkey"]
+    ida = u["a_k1_t10_ea"]["id"]
+    dele = make_event("A", 5, 50, [["e", ida]], "")
+    newev = make_event("B", 2, 60, [["e", "a"]], "arrives during the queries")
+    return {
+        "two_queries": [("c1", ["REQ", "p", {"kinds": [1]}]), ("c2", ["REQ", "q", {"kinds": [2], "#e": ["a"]}])],
+        "query_vs_hostile_query": [("c1", ["REQ", "p", {"#e": ["a"]}]), ("c2", ["REQ", "q", {"#e": ["x' OR '1'='1"], "kinds": [256]}])],
+        "ids_vs_authors": [("c1", ["REQ", "p", {"ids": [ida], "since": 5}]), ("c2", ["REQ", "q", {"authors": [B], "until": 25}])],
+        "query_vs_deletion": [("c1", ["REQ", "p", {"kinds": [1]}]), ("c2", ["EVENT", dele]), ("c1", ["REQ", "r", {"kinds": [5, 2]}])],
+        "query_vs_new_event": [("c1", ["REQ", "p", {"kinds": [1], "#e": ["a"]}]), ("c2", ["EVENT", newev]), ("c2", ["REQ", "q", {"kinds": [256]}])],
+    }, [dele, newev]
+
+
+def _sched_build(name, backend, policy):
+    from ..explorer import Scenario
+
+    specs, extra = _sched_specs()
+    pre = _sched_store()
+
+    def setup(w):
+        f = w.connect("setup", "9.9.9.9")
+        w.run(1e6)
+        for ev in pre:
+            w.send("setup", ["EVENT", ev], 1e6)
+        f.drop()
+        w.run(1e6)
+        del w.conns["setup"]
+        from .. import store as _store
+        from ..env import HarnessError
+
+        have = _store.decode_store(backend, w.dump())
+        if any(e["id"] not in have for e in pre):
+            raise HarnessError("scenario setup did not store its events")
+
+    return Scenario("%s%s|%s" % (name, "@fair" if policy == "fair" else "", backend), backend, [("c1", "1.1.1.1"), ("c2", "2.2.2.2")], specs[name],
+                    storage_options={"stats_interval": 1e15}, setup=setup, horizon=30.0, policy=policy)
+
+
+def _sched_judge(x, name, backend, viol, cid, sig):
+    specs, extra = _sched_specs()
+    known = {e["id"]: e for e in _sched_store() + extra}
+    filters = {}
+    for cn, fr in specs[name]:
+        if fr[0] == "REQ":
+            filters[(cn, fr[1])] = fr[2:]
+    for cn, c in x.world.conns.items():
+        for k, _, p in c.transcript:
+            if k != "send":
+                continue
+            try:
+                m = json.loads(p)
+            except ValueError:
+                continue
+            if not (isinstance(m, list) and m and m[0] == "EVENT"):
+                continue
+            fl = filters.get((cn, m[1]))
+            ev = m[2] if len(m) > 2 else None
+            if fl is None:
+                viol.append({"case": cid, "clause": "matches-a-filter", "sig": sig + "|%s|%s" % (cn, m[1]), "detail": "%s received a frame for subscription %r, which it never opened" % (cn, m[1])})
+                continue
+            if not isinstance(ev, dict) or ev.get("id") not in known or any(ev.get(f) != known[ev["id"]][f] for f in ("pubkey", "created_at", "kind", "tags", "content", "sig")):
+                viol.append({"case": cid, "clause": "only-accepted-events", "sig": sig + "|%s" % cn, "detail": "%s received something that is not an accepted event: %r" % (cn, str(ev)[:80])})
+                continue
+            if not any(Q.loose_matches(f, known[ev["id"]]) for f in fl):
+                viol.append({"case": cid, "clause": "matches-a-filter", "sig": sig + "|%s|%s" % (cn, ev["id"][:8]),
+                             "detail": "%s received event %s (kind %d) under %r, whose filters %s it does not match" % (cn, ev["id"][:8], ev["kind"], m[1], json.dumps(fl))})
+
+
+from ..schedmode import SchedMode  # noqa: E402
+
+SCHEDMODE = SchedMode({n: None for n in ("two_queries", "query_vs_hostile_query", "ids_vs_authors", "query_vs_deletion", "query_vs_new_event")},
+                      _sched_build, _sched_judge)
+
+
 def run_case(case):
+    if SCHEDMODE.is_case(case) and case[0] == "sched":
+        return SCHEDMODE.run(case)
     if case[0] in ("sem", "wf"):
         return run_sem(case)
     return run_text(case)
@@ -491,7 +579,7 @@ def run_case(case):
 
 def coverage(tier, agg):
     return {
-        "rule": "hostile filter language: %d filter lists = every member of a %d-string alphabet (quotes, backslash, NUL, SQL/Python metacharacters, "
+        "rule": ("hostile filter language: %d filter lists = every member of a %d-string alphabet (quotes, backslash, NUL, SQL/Python metacharacters, "
                 "comment markers, bind-parameter syntax, format directives, non-BMP, lone surrogate, empty) and of a %d-value non-string alphabet "
                 "(lists, dicts, numbers out of range, booleans, null) at every filter position (ids, authors, kinds, since, until, limit, search, "
                 "#x name, #x value, tags, unknown key): each alone; %s of them before and after a benign filter; all pairs of every %s "
@@ -500,7 +588,8 @@ def coverage(tier, agg):
                 "until 0, a stride of C02's single-filter language, multi-filter REQs): every returned event is a stored one and matches a filter of the REQ "
                 "under NIP-01 (window bounds inclusive). sem cases: store x all lists through the real REQ path, every returned event must be a stored one, verbatim, and satisfy a "
                 "permissive NIP-01 reading of at least one raw filter; SQL engine errors are violations. text cases: statement / generated code "
-                "skeleton equals that of the benign twin (SQLite, PostgreSQL branch, LMDB residual matcher) and every string literal has provenance." % (
+                "skeleton equals that of the benign twin (SQLite, PostgreSQL branch, LMDB residual matcher) and every string literal has provenance." + SCHEDMODE.rule() + ": "
+                "every EVENT frame a connection receives carries an accepted event and matches a filter of the subscription it is sent under") % (
                     len(_lists(tier)), len(STR_ALPHA), len(NONSTR), "each" if tier == "thorough" else "every 7th",
                     "23rd" if tier == "thorough" else "97th", "all" if tier == "thorough" else "every 5th of the", len(wf_lists(tier))),
         "backends": ["sql", "kv", "pg(text only)"],
@@ -508,7 +597,10 @@ def coverage(tier, agg):
 
 
 def replay(desc):
-    case = (desc["mode"], desc["backend"], tuple(desc["arg"]), desc.get("tier", "quick"))
+    if desc.get("mode") == "sched":
+        case = SCHEDMODE.from_desc(desc)
+    else:
+        case = (desc["mode"], desc["backend"], tuple(desc["arg"]), desc.get("tier", "quick"))
     r = run_case(case)
     for v in r["viol"][:20]:
         print(v["clause"], v["detail"][:600])
